@@ -11,7 +11,7 @@ import re
 
 from .. import facts
 from ..cfg import Cfg, bool_edges
-from ..prov import Prov
+from ..prov import Prov, flatten
 from ..common import def_of, inst_of, method, arg_roots
 from ..prover import (Ctx, Lin, analyze, entails, counter_model, V_slice, V_int, UNKNOWN, V_opt, V_struct, struct_get, satisfiable, FALSE)
 from ..util import fns_by_key, keyname, place_of, norm, last
@@ -65,7 +65,7 @@ def run(ck, tier):
     except Exception as e:
         ck.refuted("R-C01-units", "internal:%s" % type(e).__name__, "", "rule could not run: %s" % e)
     from ..prover import Budget
-    for sub in (_consumers, _lexer, _loops, _indexed_cursor, _spans, _precond, _total, _twin_scans, _md_breaks, _matchlen, _div, _intparse, _typst_range, _kept_neighbour):
+    for sub in (_consumers, _lexer, _loops, _indexed_cursor, _fmt_args, _spans, _precond, _total, _twin_scans, _md_breaks, _matchlen, _div, _intparse, _typst_range, _kept_neighbour):
         try:
             sub(ck, p)
         except Budget as e:
@@ -640,6 +640,92 @@ def _oor_goes_on(p, f, cfg, body, assert_bb, carriers):
         if cfg.reaches(false_blk, outside + [min(body)], avoid=[assert_bb]) and false_blk != assert_bb:
             return False
     return True
+
+
+def _fmt_args(ck, p):
+    """`{:.*}` / `{:1$}`: a width or precision taken at run time goes through core::fmt::rt::Argument::from_usize,
+    which panics ("Formatting argument out of range") above u16::MAX.  A value counted from the text is not bounded."""
+    from ..prov import field_names
+    from ..util import const_int
+    rule = "R-C01-fmtarg"
+    ck.rule(rule, "a width or precision handed to the formatting machinery at run time (`{:.*}`, `{:w$}`: core::fmt::rt::Argument::from_usize, which panics above 65535) is bounded: a constant, the result of min/clamp with a constant bound, or a field whose every writer stores such a value; a field that some writer fills with a count taken from the text (position, len, count ..) is refuted")
+    COUNTS = {"position", "rposition", "len", "count", "find", "rfind", "chars", "sum"}
+    BOUNDS = {"min", "clamp"}
+    n = 0
+    for f in sorted((g for g in p.fns.values() if DIV_SCOPE.match(g.name)), key=lambda g: g.name):
+        sites = [(bi, t) for bi, t in f.calls() if norm(inst_of(t)).endswith("fmt::rt::{impl}::from_usize")]
+        if not sites:
+            continue
+        pv = Prov(f)
+        ck.saw(f)
+        for k, (bi, t) in enumerate(sites):
+            n += 1
+            key = "%s:from_usize#%d" % (keyname(p, f), k)
+            org = pv.trace_operand(t["args"][0])
+            leaves = flatten(org)
+            calls = {last(norm(o[3] or o[2] or "")) for o in leaves if o[0] == "call"}
+            flds = field_names(org)
+            if calls & BOUNDS:
+                caps = []
+                for o in leaves:
+                    if o[0] == "call" and last(norm(o[3] or o[2] or "")) in BOUNDS:
+                        for a in f.blocks[o[1]]["t"]["args"]:
+                            for c in flatten(pv.trace_operand(a)):
+                                if c[0] == "const":
+                                    try:
+                                        caps.append(int(str(c[1]).split("_")[0]))
+                                    except ValueError:
+                                        pass
+                if caps and min(caps) <= 65535:
+                    ck.proved(rule, key, f.loc(t["ln"]), "the value passes %s with the constant bound %d before it is formatted" % (sorted(calls & BOUNDS), min(caps)))
+                else:
+                    ck.undecided(rule, key, f.loc(t["ln"]), "the value passes %s, but no constant bound of at most 65535 was recognised (constants seen: %s)" % (sorted(calls & BOUNDS), caps[:4]))
+                continue
+            if leaves and all(o[0] == "const" for o in leaves):
+                ck.proved(rule, key, f.loc(t["ln"]), "constant width / precision")
+                continue
+            if not flds:
+                ck.undecided(rule, key, f.loc(t["ln"]), "run-time width / precision of unknown origin (%s)" % sorted(calls)[:4])
+                continue
+            # writers of the field(s) anywhere in the workspace
+            text_counts, other, consts = [], [], 0
+            for g in p.fns.values():
+                if g.get("kind") == "Promoted":
+                    continue
+                pg = None
+                for b in g.blocks:
+                    if b["cleanup"]:
+                        continue
+                    for sx in b["s"]:
+                        if sx["k"] != "assign":
+                            continue
+                        ops = []
+                        lhs, rv = sx["lhs"], sx["rv"]
+                        if len(lhs) > 1 and isinstance(lhs[-1], list) and lhs[-1][0] == "f" and lhs[-1][2] in flds and rv["k"] == "use":
+                            ops.append(rv["op"])
+                        if rv["k"] == "agg" and rv.get("agg") == "adt" and len(rv.get("ops", [])) == len(rv.get("fields", [])):
+                            for fn_, op in zip(rv["fields"], rv["ops"]):
+                                if fn_ in flds and "Number" in str(rv.get("name", "")):
+                                    ops.append(op)
+                        for op in ops:
+                            pg = pg or Prov(g)
+                            lv = arg_roots(g, pg, op)
+                            cs = {last(norm(o[3] or o[2] or "")) for o in lv if o[0] == "call"}
+                            if cs & BOUNDS:
+                                consts += 1
+                            elif cs & COUNTS:
+                                text_counts.append("%s (%s)" % (keyname(p, g), ", ".join(sorted(cs & COUNTS))))
+                            elif lv and all(o[0] == "const" for o in lv):
+                                consts += 1
+                            else:
+                                other.append(keyname(p, g))
+            if text_counts:
+                ck.refuted(rule, key, f.loc(t["ln"]), "the run-time precision is the field %s, which %s fills with a count taken from the text and nothing bounds: a number written with more than 65535 digits behind the decimal point makes Argument::from_usize panic (\"Formatting argument out of range\") as soon as a rule formats the number (CurrencyPlacement::format_amount)" % (sorted(flds), "; ".join(sorted(set(text_counts)))))
+            elif other:
+                ck.undecided(rule, key, f.loc(t["ln"]), "the run-time precision is the field %s; writers of unknown bound: %s" % (sorted(flds), sorted(set(other))[:4]))
+            else:
+                ck.proved(rule, key, f.loc(t["ln"]), "the run-time precision is the field %s; all %d writers store constants or bounded values" % (sorted(flds), consts))
+    ck.extra["runtime_format_arguments"] = n
 
 def _copy_src(f, l):
     for _ in range(4):
